@@ -211,7 +211,10 @@ type history struct {
 	verKey map[string]string // version id -> bucket/key
 	ids    []string
 	delVer map[string]bool // version ids some client has started to delete
+	recycles []*recycle   // bucket delete+re-create operations (the bucket may be absent while one is in flight)
 }
+
+type recycle struct{ call, ret int64 }
 
 func newHistory() *history {
 	return &history{parts: map[string][]porcupine.Operation{}, desc: map[string][]string{}, bodies: map[string][]byte{"d41d8cd98f00b204e9800998ecf8427e": {}},
@@ -223,6 +226,17 @@ func (h *history) tick() int64 { h.seq++; return h.seq }
 func (h *history) add(part string, client int, call, ret int64, in, out interface{}, desc string) {
 	h.parts[part] = append(h.parts[part], porcupine.Operation{ClientId: client, Input: in, Call: call, Output: out, Return: ret})
 	h.desc[part] = append(h.desc[part], fmt.Sprintf("[%d,%d] c%d %s", call, ret, client, desc))
+}
+
+// bucketMayBeAbsent reports whether a delete+re-create of the bucket overlaps
+// an operation invoked at opCall and answered now.
+func (h *history) bucketMayBeAbsent(opCall int64) bool {
+	for _, rc := range h.recycles {
+		if rc.ret == 0 || rc.ret >= opCall {
+			return true
+		}
+	}
+	return false
 }
 
 func md5hex(b []byte) string {
@@ -276,11 +290,18 @@ func (r *Run) altETagOK(et, sum string) bool { return r.hist.bodies[sum] != nil 
 func (r *Run) execLin(ci, oi int, op *Op) {
 	h := r.hist
 	part := "k:" + op.B + "/" + op.Key
-	mustOK := func(resp *Resp, what string) {
+	// mustOK: false means the operation legitimately met a bucket that another
+	// client is deleting and re-creating; it had no effect and is not recorded
+	mustOK := func(resp *Resp, what string, call int64) bool {
 		r.noPanic(resp, what)
+		if resp.Status == 404 && (resp.Code == "NoSuchBucket" || len(resp.Body) == 0) && h.bucketMayBeAbsent(call) {
+			r.probe("request met the bucket while it was being deleted and re-created")
+			return false
+		}
 		if !resp.OK() {
 			r.linFail("lin.register", what+" fails although nothing can make it fail in a sequential execution", "2xx", resp.String()+" "+resp.Msg)
 		}
+		return true
 	}
 	switch op.K {
 	case "put":
@@ -290,7 +311,9 @@ func (r *Run) execLin(ci, oi int, op *Op) {
 		call := h.tick()
 		resp := r.send(r.putRequest(op, target(op.B, op.Key, nil), body), op.Faults, r.frag(op))
 		ret := h.tick()
-		mustOK(resp, "PUT object")
+		if !mustOK(resp, "PUT object", call) {
+			return
+		}
 		if et := strings.Trim(resp.Header.Get("ETag"), `"`); et != sum {
 			r.linFail("lin.integrity", "PUT response ETag is not the MD5 of the uploaded bytes", sum, et)
 		}
@@ -345,6 +368,8 @@ func (r *Run) execLin(ci, oi int, op *Op) {
 			}
 			val = r.checkReadIntegrity(resp, head, m)
 		case resp.Status == 404 && (head || resp.Code == "NoSuchKey"):
+		case resp.Status == 404 && resp.Code == "NoSuchBucket" && h.bucketMayBeAbsent(call):
+			// the bucket can only be deleted while it is empty: the key is absent
 		default:
 			r.linFail("lin.register", m+" answers neither the object nor NoSuchKey", "200 or 404 NoSuchKey", resp.String()+" "+resp.Msg)
 		}
@@ -367,7 +392,7 @@ func (r *Run) execLin(ci, oi int, op *Op) {
 			call := h.tick()
 			resp := r.simple("DELETE", target(op.B, op.Key, url.Values{"versionId": {id}}), op)
 			ret := h.tick()
-			mustOK(resp, "DELETE ?versionId")
+			mustOK(resp, "DELETE ?versionId", call)
 			h.add(part, ci, call, ret, regIn{Kind: "dv", V: h.verOf[id], ID: id}, regOut{}, "delete-version "+short(h.verOf[id]))
 			r.logf("c%d#%d delver %s/%q %s [%d,%d] -> %s", ci, oi, op.B, op.Key, short(h.verOf[id]), call, ret, resp.String())
 			r.probe("delete-version in a concurrent run")
@@ -377,7 +402,9 @@ func (r *Run) execLin(ci, oi int, op *Op) {
 		call := h.tick()
 		resp := r.simple("DELETE", target(op.B, op.Key, nil), op)
 		ret := h.tick()
-		mustOK(resp, "DELETE object")
+		if !mustOK(resp, "DELETE object", call) {
+			return
+		}
 		h.add(part, ci, call, ret, regIn{Kind: "d"}, regOut{}, "delete")
 		r.logf("c%d#%d del %s/%q [%d,%d] -> %s", ci, oi, op.B, op.Key, call, ret, resp.String())
 		r.stats.Mutations++
@@ -403,6 +430,7 @@ func (r *Run) execLin(ci, oi int, op *Op) {
 			r.stats.Mutations++
 		case resp.Status == 404 && resp.Code == "NoSuchKey":
 			h.add(src, ci, call, ret, regIn{Kind: "r"}, regOut{""}, "copy-read -> <absent>")
+		case resp.Status == 404 && resp.Code == "NoSuchBucket" && h.bucketMayBeAbsent(call):
 		default:
 			r.linFail("lin.register", "copy answers neither success nor NoSuchKey", "200 or 404", resp.String()+" "+resp.Msg)
 		}
@@ -413,6 +441,9 @@ func (r *Run) execLin(ci, oi int, op *Op) {
 		ret := h.tick()
 		r.noPanic(resp, "list objects")
 		var x xListResult
+		if resp.Status == 404 && resp.Code == "NoSuchBucket" && h.bucketMayBeAbsent(call) {
+			return
+		}
 		if resp.Status != 200 || xml.Unmarshal(resp.Body, &x) != nil {
 			r.linFail("lin.register", "ListObjects fails", "200", resp.String()+" "+resp.Msg)
 		}
@@ -445,12 +476,40 @@ func (r *Run) execLin(ci, oi int, op *Op) {
 		resp := r.send(&simnet.Request{Method: "POST", Target: target(op.B, "", url.Values{"delete": {""}}),
 			Headers: [][2]string{{"Content-Length", strconv.Itoa(body.Len())}}, Body: body.Bytes()}, op.Faults, r.frag(op))
 		ret := h.tick()
-		mustOK(resp, "multi-delete")
+		if !mustOK(resp, "multi-delete", call) {
+			return
+		}
 		for _, k := range op.Keys {
 			h.add("k:"+op.B+"/"+k.Key, ci, call, ret, regIn{Kind: "d"}, regOut{}, "multi-delete")
 		}
 		r.stats.Mutations++
 		r.logf("c%d#%d delmulti [%d,%d] -> %s", ci, oi, call, ret, resp.String())
+	case "recycle":
+		// delete the bucket (possible only while it is empty) and create it again
+		rc := &recycle{call: h.tick()}
+		h.recycles = append(h.recycles, rc)
+		resp := r.simple("DELETE", target(op.B, "", nil), op)
+		dret := h.tick()
+		r.noPanic(resp, "delete bucket")
+		switch {
+		case resp.Status == 204:
+			for _, k := range op.Keys {
+				h.add("k:"+op.B+"/"+k.Key, ci, rc.call, dret, regIn{Kind: "r"}, regOut{""}, "bucket deleted -> <absent>")
+			}
+			mk := r.simple("PUT", target(op.B, "", nil), op)
+			r.noPanic(mk, "create bucket")
+			if !mk.OK() && mk.Status != 409 {
+				r.linFail("lin.register", "re-creating a deleted bucket fails", "200", mk.String())
+			}
+			r.probe("bucket deleted and re-created while other clients were active")
+			r.stats.Mutations++
+		case resp.Status == 409 && resp.Code == "BucketNotEmpty":
+		case resp.Status == 404 && h.bucketMayBeAbsent(rc.call):
+		default:
+			r.linFail("lin.register", "deleting a bucket answers neither success, BucketNotEmpty nor NoSuchBucket", "204, 409 or 404", resp.String()+" "+resp.Msg)
+		}
+		rc.ret = h.tick()
+		r.logf("c%d#%d recycle %s [%d,%d] -> %s", ci, oi, op.B, rc.call, rc.ret, resp.String())
 	case "mpu-part":
 		u := r.upload(op.Up)
 		if u == nil {
